@@ -1115,6 +1115,7 @@ def run(ctx):
     finally:
         guard.close()
     float32_oracle(ctx)
+    integer_bounds_oracle(ctx)
 
 
 def _run(ctx, guard):
@@ -1140,6 +1141,40 @@ def _run(ctx, guard):
         "every implementation call runs under a time-out and is killed by PID",
         "the real search is run under jax.jit with the function parameters traced and (tol, max_iter) static, plus an eager sample",
     ]
+
+
+def integer_bounds_oracle(ctx):
+    """`lower` / `upper` are documented as Real scalars: integer bounds (python ints, integer arrays) must give the same roots as the
+    same bounds written as floats.  In-process, small maps with roots guaranteed (affine-like triangular maps).  (Seeded change
+    C01d let the carried solution vector inherit an integer dtype from the bounds.)"""
+    import jax.numpy as jnp
+    from flowjax.bijections import Affine, Chain, TriangularAffine
+    from flowjax.bisection_search import AutoregressiveBisectionInverter
+
+    u = ctx.unit("integer-bounds", "AutoregressiveBisectionInverter(lower=int, upper=int) vs the same bounds as floats on Affine / TriangularAffine maps: "
+                                   "equal roots (1e-12) and both within tol of the true preimage; non-trivial = all")
+    rng = ctx.rng
+    for rep in range(6 if ctx.quick else 40):
+        d = int(rng.integers(1, 5))
+        if rep % 2:
+            A = np.tril(rng.normal(0, 0.7, (d, d)), -1) + np.diag(np.exp(rng.normal(0, 0.5, d)))
+            bij = TriangularAffine(jnp.asarray(rng.normal(0, 1, d)), jnp.asarray(A))
+        else:
+            bij = Affine(jnp.asarray(rng.normal(0, 1, d)), jnp.asarray(np.exp(rng.normal(0, 0.7, d))))
+        x = rng.normal(0, 2.5, d)
+        y = bij.transform(jnp.asarray(x))
+        lo, hi = int(rng.integers(-12, -1)), int(rng.integers(1, 12))
+        roots = {}
+        for kind, (a, b) in {"float": (float(lo), float(hi)), "python-int": (lo, hi), "int-array": (jnp.asarray(lo), jnp.asarray(hi))}.items():
+            inv = AutoregressiveBisectionInverter(lower=a, upper=b, tol=1e-9, max_iter=200)
+            roots[kind] = np.asarray(inv(bij, y), dtype=float)
+        for kind in ("python-int", "int-array"):
+            u.count((rep, kind, lo, hi, x.tolist()), tag=kind)
+            if not (np.allclose(roots[kind], roots["float"], rtol=0, atol=1e-12) and np.allclose(roots[kind], x, rtol=0, atol=1e-6)):
+                ctx.violation(sig=f"integer-bounds:{kind}", what=f"AutoregressiveBisectionInverter(lower={lo}, upper={hi}) given as {kind}: returns {roots[kind].tolist()} "
+                              f"but {roots['float'].tolist()} with float bounds; the true preimage is {x.tolist()}",
+                              case=dict(unit="integer-bounds", kind=kind, lower=lo, upper=hi, x=x.tolist(), map="TriangularAffine" if rep % 2 else "Affine"),
+                              found_input=True, unit=u.name, expected=x.tolist(), observed=roots[kind].tolist(), broken="integer-bounds / C10_search_within_tol")
 
 
 def float32_oracle(ctx):
